@@ -236,11 +236,19 @@ def limit_as():
     os.setsid()
 
 
+def limit_as_big():
+    # playback generation: kani-driver parses the whole CBMC trace in memory (one run at a time)
+    gb = int(os.environ.get("VERIF_MEM_GB_PLAYBACK", "52"))
+    resource.setrlimit(resource.RLIMIT_AS, (gb << 30, gb << 30))
+    os.setsid()
+
+
 def run_cmd(cmd, cwd, timeout, logfile, limit=True):
     t0 = time.time()
+    pre = limit_as_big if limit == "big" else (limit_as if limit else os.setsid)
     with open(logfile, "w") as lf:
         p = subprocess.Popen(cmd, cwd=cwd, stdout=lf, stderr=subprocess.STDOUT,
-                             preexec_fn=limit_as if limit else os.setsid,
+                             preexec_fn=pre,
                              env=dict(os.environ, CARGO_NET_OFFLINE="true", CARGO_TERM_COLOR="never"))
         try:
             rc = p.wait(timeout=timeout)
@@ -433,7 +441,7 @@ def native_replay(crate_dir, cfg, h, logdir):
     if h.native:
         tests = []   # trace too large for Kani's playback generator: go straight to the native test
     else:
-        run_cmd(cmd, crate_dir, h.timeout * 2 + 300, logfile)
+        run_cmd(cmd, crate_dir, h.timeout * 2 + 300, logfile, limit="big")
         text = open(logfile, errors="replace").read()
         tests = [t for t in extract_playback_tests(text, h.name) if t[0] != "cover"]
     if not tests:
